@@ -193,7 +193,9 @@ class Templates:
                         self.errors[key] = str(e)
                         paths = []
                         break
-                    unk = [e for e in evs if e.kind == "unknown"]
+                    # (parts of an already REWRITTEN user node - `X(value).elts[*]` - are user code in
+                    # rewritten form, not foreign nodes)
+                    unk = [e for e in evs if e.kind == "unknown" and not str(e.path).startswith("X(")]
                     if unk:
                         self.errors[key] = f"the emitted template contains a node the analyser cannot model: {unk[0].path} at {unk[0].site}"
                         paths = []
